@@ -135,6 +135,10 @@ func vpC14CheckDelivered(s *vpSim, o int, lo, hi uint64, before map[string]int) 
 	return "", false
 }
 
+// vpC14AfterAnnounce, when set, is called after every announce step of the histories below
+// (used by C13's dynamic check: the same histories, another oracle).
+var vpC14AfterAnnounce func(t *rapid.T, s *vpSim, o int, at time.Time, shape string, edges [][2]int)
+
 func vpC14Run(t *rapid.T, st *vp.Stats, lateConnects bool) {
 	vpC14RunTol(t, st, lateConnects, false)
 }
@@ -217,6 +221,9 @@ func vpC14RunTol(t *rapid.T, st *vp.Stats, lateConnects, tolerateAhead bool) {
 			}
 			if msg != "" {
 				t.Fatalf("VPFAIL C14 %s\n  graph %s %v\n  history: %s", msg, shape, edges, s.history())
+			}
+			if vpC14AfterAnnounce != nil {
+				vpC14AfterAnnounce(t, s, o, at, shape, edges)
 			}
 			if msg := vpC14CheckRefreshTol(s, o, at, tolerateAhead); msg != "" {
 				h := s.history()
